@@ -109,6 +109,9 @@ var streamPool = sync.Pool{
 
 func NewStream(id uint32, win int32) *Stream {
 	strm := streamPool.Get().(*Stream)
+	if verifOn {
+		vPoolGet(vpStream, strm)
+	}
 	strm.id = id
 	strm.window = int64(win)
 	strm.state = StreamStateIdle
